@@ -609,9 +609,20 @@ func enumC17(env *engine.Env, yield func(any) bool) {
 		return
 	}
 	// an undefined key at every mapping level: the parser's verdict and the schema's must agree (both reject)
-	_, levels := configShape()
+	lvLeaves, levels := configShape()
 	for _, lv := range levels {
-		for _, inj := range []string{"", "x-extra", "X-Meta", "_private"} {
+		injs := []string{"", "x-extra", "X-Meta", "_private"}
+		// a key of this very level in another letter case (a decoder that matches keys loosely takes it)
+		for _, lf := range lvLeaves {
+			if len(lf.Path) == len(lv.Path)+1 && pathKey(lf.Path[:len(lv.Path)]) == pathKey(lv.Path) {
+				k := lf.Path[len(lf.Path)-1]
+				if up := strings.ToUpper(k[:1]) + k[1:]; up != k {
+					injs = append(injs, up, strings.ToUpper(k))
+					break
+				}
+			}
+		}
+		for _, inj := range injs {
 			if !yield(C17Case{Part: "level", Path: lv.Path, Value: inj}) {
 				return
 			}
